@@ -18,9 +18,9 @@ MANIFEST = {
 }
 
 SETS_Q = [["DE", "UE", "TE"], ["DE", "DE", "SU"], ["TE", "SD", "UE"]]
-SETS_T = SETS_Q + [["TE", "TE", "DE"], ["UE", "UE", "UE"], ["SD", "SD", "DE"], ["DE", "UE", "TE", "DE"]]
+SETS_T = SETS_Q + [["TE", "TE", "DE"], ["UE", "UE", "UE"], ["SD", "SD", "DE"]]
 BOUNDS = {"quick": {"vertices": 3, "links": 3, "class_multisets": len(SETS_Q)},
-          "thorough": {"vertices": 3, "links": "3-4", "class_multisets": len(SETS_T)}}
+          "thorough": {"vertices": 3, "links": 3, "class_multisets": len(SETS_T)}}
 TIME_BUDGET = {"quick": 300, "thorough": 1200}
 STUBS = ["filterfunc -> uninterpreted function ff(link): Bool"]
 ASSUMPTIONS = [
